@@ -5,7 +5,6 @@ import (
 	"os"
 	"strings"
 	"testing"
-	"time"
 
 	agglayertypes "github.com/agglayer/aggkit/agglayer/types"
 	aggsenderdb "github.com/agglayer/aggkit/aggsender/db"
@@ -103,12 +102,12 @@ func c13Case(ch choose.Chooser, rec *ev.Recorder, cfg walkCfg) error {
 			return fmt.Errorf("restart: aggsender.New failed: %v\n  history: %s", err, r.key())
 		}
 		r.node = node
-		serr := node.startup(150 * time.Millisecond)
+		serr := node.startup(r.m, 4)
 		if serr != nil {
 			// give the Agglayer the chance to decide what is pending, then try again: refusing while something is
 			// undecided can be a legitimate "wait"
 			r.m.settleFully()
-			serr = node.startup(150 * time.Millisecond)
+			serr = node.startup(r.m, 4)
 		}
 		if serr != nil {
 			sig := c13Signature(r)
@@ -200,7 +199,7 @@ func c13Contradiction(ch choose.Chooser, rec *ev.Recorder, r *walkRes, cfg walkC
 		return fmt.Errorf("restart: aggsender.New failed: %v", err)
 	}
 	r.node = node
-	serr := node.startup(80 * time.Millisecond)
+	serr := node.startup(r.m, 3)
 	rec.Class("plan_contradiction_" + kind)
 	rec.Case(true, r.key())
 	if serr == nil {
